@@ -83,6 +83,17 @@ StOf(ans, n) == ans[CHOOSE i \in 1..Len(ans) : ans[i].n = n].st
 EmptyOf(ans, n) == ans[CHOOSE i \in 1..Len(ans) : ans[i].n = n].empty
 \* propname: available names, no values;  allprop: all of them with status 200;  prop: each DISTINCT requested name exactly once,
 \* 200 if available, empty under 404 if not, and nothing that was not asked for
+\* what a resource certainly "has" in the recorder's fixtures (every file and object is stored with a length -- possibly 0 for
+\* files --, an entity tag, a modification time; collections have names): a lower bound for the available properties, so that
+\* a property dropped consistently from all three forms does not go unnoticed
+DavFiles == {"file", "dir/f1", "dir/sub/f2"}
+MustHave(srv, r, lay) ==
+  {"DAV: resourcetype"} \cup
+  (IF srv = "dav" THEN (IF r \in DavFiles THEN {"DAV: getcontentlength", "DAV: getetag", "DAV: getlastmodified"} ELSE {})
+   ELSE IF srv = "principal" THEN (IF r = "P" THEN {"DAV: current-user-principal", "SRV: home-set", "CARD: home-set"} ELSE {})
+   ELSE IF r \in Objs(lay) THEN {"DAV: getetag", "DAV: getcontentlength", "DAV: getlastmodified", "DAV: getcontenttype", "SRV: data"}
+   ELSE IF r \in Cols(lay) THEN {"DAV: displayname"}
+   ELSE {})
 PropNameOK(avail) == Once(avail) /\ \A i \in 1..Len(avail) : avail[i].st = 200 /\ avail[i].empty
 AllPropOK(all, avail) == Once(all) /\ Names(all) = Names(avail) /\ \A i \in 1..Len(all) : all[i].st = 200
 PropOK(ans, req, avail) == /\ Names(ans) = SetOf(req)
